@@ -47,7 +47,8 @@ def check(repo, tier="quick"):
     rule_b(repo, res)
     rule_c(repo, res)
     rule_g(repo, res)
-    res.floor("C16.g", 7)
+    rule_known_equals_emitted(repo, res)
+    res.floor("C16.g", 8)
     # the ordering pattern of the level is applied to every data unit the encoder emits (C03.a re-evaluated)
     from . import c03 as _c03
     from ..report import Ob as _Ob, Result as _Res
@@ -321,3 +322,29 @@ def rule_g(repo, res):
                     bad.append("inside %s" % type(p).__name__)
                 p = getattr(p, "_parent", None)
             res.check(not bad, "C16.g", "known-value:%s" % key, where, "the known value %r is recorded only under %s: for the other configurations of the same profile the encoder still emits it (make_picture_parse) but it is not checked against the level table, so a stream the validator rejects can be produced" % (key, bad), by="unconditional or profile-guarded")
+
+
+def rule_known_equals_emitted(repo, res):
+    """the known value recorded for custom_quant_matrix is the flag make_quant_matrix emits (same test of the same entry)"""
+    from ..core import pfind
+
+    m, fn = repo.func("codec_features:codec_features_to_trivial_level_constraints")
+    feat = fn.args.args[0].arg
+    n, _ = pfind("constrained_values['custom_quant_matrix'] = %s['quantization_matrix'] is not None" % feat, fn)
+    pm, mq = repo.func("encoder.pictures:make_quant_matrix")
+    f2 = mq.args.args[0].arg
+    emit_ok = False
+    for i in ast.walk(mq):
+        if isinstance(i, ast.If) and norm(i.test) in ("%s['quantization_matrix'] is None" % f2,):
+            t = [r for r in i.body if isinstance(r, ast.Return)]
+            e = [r for r in i.orelse if isinstance(r, ast.Return)]
+
+            def flag(r):
+                if r and isinstance(r[0].value, ast.Call):
+                    for k in r[0].value.keywords:
+                        if k.arg == "custom_quant_matrix" and isinstance(k.value, ast.Constant):
+                            return k.value.value
+                return None
+
+            emit_ok = flag(t) is False and flag(e) is True
+    res.check(n is not None and emit_ok, "C16.g", "known-value:custom_quant_matrix:equals-what-is-emitted", "%s:codec_features_to_trivial_level_constraints" % m.rel, "the value checked against the level must be the value written to the stream: make_quant_matrix emits custom_quant_matrix=True exactly when codec_features['quantization_matrix'] is not None, so the known value must be that same test (a matrix that happens to equal the default one is still emitted as custom)", by="both are `quantization_matrix is not None`")
